@@ -223,6 +223,9 @@ func NewPersistence(kind string) (persistence.LogStatePersistence, func()) {
 	}
 }
 
+// staleEpoch (2023-11-14) is "some time ago" for stale witness cosignatures.
+const staleEpoch = int64(1700000000)
+
 // UnknownLogID is an ID that no generated configuration contains.
 const UnknownLogID = "00000000000000000000000000000000000000000000000000000000deadbeef"
 
@@ -706,7 +709,8 @@ func (e *Env) Resolve(idx int, op Op, held Held) Req {
 				}
 			case "stalewit":
 				if x.Key >= 0 && x.Key < len(e.WKeys) {
-					ts := uint64(time.Now().Unix() - x.TsAgo)
+					// a fixed instant in the past: generated bytes must not depend on the clock
+					ts := uint64(staleEpoch - x.TsAgo%1000000)
 					lines = append(lines, e.WKeys[x.Key].K.CosigLine(text, ts))
 				}
 			case "stalewitlegacy":
@@ -1096,7 +1100,7 @@ func (e *Env) Exec(t Target, o RunOpts) ([]*Step, error) {
 			}
 			for _, wk := range e.WKeys {
 				if wk.Kind == WKCosig {
-					lines = append(lines, wk.K.CosigLine(text, uint64(time.Now().Unix()-op.TsAgo)))
+					lines = append(lines, wk.K.CosigLine(text, uint64(staleEpoch-op.TsAgo%1000000)))
 				} else {
 					lines = append(lines, wk.K.SigLine(text))
 				}
